@@ -2,6 +2,7 @@ package main
 
 import (
 	"fmt"
+	"go/types"
 	"go/token"
 	"regexp"
 	"strings"
@@ -267,6 +268,68 @@ func checkC09(c *Ctx, r *Report) {
 	}
 	if nData == 0 {
 		r.unresolved("C09.R2", "loads of cacheEntry.data", "none found")
+	}
+	// the same through the heap (added after a seeded change parked an evicted entry's buffer in a
+	// spare field and reused it for the next insert): no write site of the cache or storage packages
+	// may land in memory that was ever the backing array of a cached entry, wherever the slice has
+	// travelled in between. Judged with the points-to engine; the mark is any load of cacheEntry.data.
+	{
+		isData := func(v ssa.Value) bool {
+			u, ok := v.(*ssa.UnOp)
+			if !ok || u.Op != token.MUL {
+				return false
+			}
+			fa, ok := u.X.(*ssa.FieldAddr)
+			if !ok {
+				return false
+			}
+			t, f, _, ok := fieldAddrInfo(fa)
+			return ok && t == pkgCache+".cacheEntry" && f == "data"
+		}
+		eng := newPtsEngine(m, nil)
+		eng.mark = isData
+		var sites []refSite
+		reach := map[*ssa.Function]reachInfo{}
+		for _, pk := range []string{pkgCache, pkgStorage} {
+			for _, fn0 := range m.FuncsInPkg(pk) {
+				for _, fn := range withAnon(fn0) {
+					reach[fn] = reachInfo{fn: fn}
+					for _, b := range fn.Blocks {
+						for _, in := range b.Instrs {
+							switch x := in.(type) {
+							case *ssa.Store:
+								if ia, ok := x.Addr.(*ssa.IndexAddr); ok {
+									if _, isByte := x.Val.Type().Underlying().(*types.Basic); isByte {
+										sites = append(sites, refSite{fn, in, ia.X, "element store"})
+									}
+								}
+							case *ssa.Call:
+								if bi, ok := x.Call.Value.(*ssa.Builtin); ok {
+									switch bi.Name() {
+									case "append":
+										if c0, ok := x.Call.Args[0].(*ssa.Const); ok && c0.IsNil() {
+											continue
+										}
+										if strings.HasSuffix(x.Type().String(), "[]byte") {
+											sites = append(sites, refSite{fn, in, x.Call.Args[0], "append onto"})
+										}
+									case "copy":
+										sites = append(sites, refSite{fn, in, x.Call.Args[0], "copy into"})
+									}
+								}
+							}
+						}
+					}
+				}
+			}
+		}
+		reports, _ := judgeRefSites(m, eng, reach, sites, func(v ssa.Value) string { return "bytes that are (or were) a cached entry's data" }, "can overwrite")
+		key := "no write site can land in the backing array of a cached entry, however the slice travelled"
+		if len(reports) == 0 {
+			r.ok("C09.R2", key, "", fmt.Sprintf("%d byte-write sites in cache and storage judged", len(sites)))
+		} else {
+			r.viol("C09.R2", key, "", strings.Join(reports, "; "))
+		}
 	}
 
 	// ---- R3
